@@ -851,6 +851,23 @@ def C04(V, tier):
         runtime_models(V, wd0, [("pipe", "pipe_quick")])
     else:
         runtime_models(V, wd0, [("pipe", "pipe"), ("diamond", "diamond_quick"), ("group", "group")], coverage=True)
+    # the data cycle of iterate with bounded channels: the code (drain before every element, AMP = 1) never
+    # deadlocks; an amplifying body (F9) and the regression seeded/C04 (drain only while the input is open) do
+    for cfg in ("IterateLoop_ok", "IterateLoop_big"):
+        r = tlc_check(f"{SPEC}/sys/IterateLoop.tla", f"{SPEC}/mc/{cfg}.cfg", wd0, cfg, workers=4, timeout=900)
+        if not r["ok"]:
+            raise ToolError(f"model check {cfg}: {r['invariant_violated']} fails on the MODEL")
+        require_coverage(r, ["HeadNext", "HeadWait", "BodyRecv", "BodySend"], cfg)
+        V.add_model(r, cfg)
+    for cfg in ("IterateLoop_F9", "IterateLoop_seedC04"):
+        r = tlc_check(f"{SPEC}/sys/IterateLoop.tla", f"{SPEC}/mc/{cfg}.cfg", wd0, cfg, workers=2, coverage=False)
+        V.coverage[f"{cfg}_deadlocks"] = r["invariant_violated"] == "NoDeadlock"
+    r = tlc_check(f"{SPEC}/sys/IterateLoop2.tla", f"{SPEC}/mc/IterateLoop2_single.cfg", wd0, "il2s", workers=2, coverage=False)
+    if not r["ok"]:
+        raise ToolError("IterateLoop2_single fails on the MODEL")
+    V.add_model(r, "IterateLoop2_single")
+    r = tlc_check(f"{SPEC}/sys/IterateLoop2.tla", f"{SPEC}/mc/IterateLoop2_shuffle.cfg", wd0, "il2", workers=2, coverage=False)
+    V.coverage["IterateLoop2_shuffle_deadlocks"] = r["invariant_violated"] == "NoDeadlock"
     progs = []
     progs += gen.fan_programs(rng, 12 if q else 120)
     progs += gen.join_programs(rng, 10 if q else 120)
@@ -889,6 +906,27 @@ def C04(V, tier):
         matrix += [({"mode": "local", "par": 4}, "single"), ({"mode": "remote", "hosts": [2, 2]}, "fixed:1"),
                    ({"mode": "remote", "hosts": [1, 3]}, "adaptive:3:200")]
     _focused(V, tier, "C04", progs, checks=("sinks", "link"), matrix=matrix, perturb_us=300, hang_ms=12000)
+    # the witness of the open finding F9 (iterate with an amplifying body under single-element batches): it
+    # hangs on some schedules only; a hang of exactly this class is the known finding, nothing else is
+    wit = {"name": "f9witness", "prop": "C04", "prog": {"nodes": [
+        {"id": "s", "op": "src", "kind": "par_range", "lo": 0, "hi": 10},
+        {"id": "a", "op": "shuffle", "in": ["s"]},
+        {"id": "L", "op": "iterate", "rounds": 2, "init": 0, "lfold": "count", "gfold": "count", "cond": "always",
+         "body": [{"id": "L_a", "op": "flat_map", "g": "range3", "in": ["$in"]}, {"id": "L_b", "op": "flat_map", "g": "range3", "in": ["L_a"]},
+                  {"id": "L_c", "op": "flat_map", "g": "dup", "in": ["L_b"]}], "out": "L_c", "in": ["a"]},
+        {"id": "ks", "op": "sink", "kind": "collect_vec", "in": ["L.state"]},
+        {"id": "ko", "op": "sink", "kind": "collect_count", "in": ["L.out"]}]},
+        "sinks": {"ks": {"kind": "collect_vec", "ordered": False}, "ko": {"kind": "collect_count", "ordered": False}}}
+    from common import run_jobs
+    wjobs = jobsuite.make_jobs([wit], [({"mode": "local", "par": 1}, "single")] * 3, trace=False, hang_ms=4000,
+                               base_seed=seed())
+    wres, _ = run_jobs(wjobs, workdir("C04w"), nproc=3, timeout=120)
+    for jid, r in wres.items():
+        if r.get("hang"):
+            V.add_violation({"prop": "C04", "kind": "job_hang", "job": jid,
+                             "class": "iterate_amplifying_body_single_element_batches"}, replay=wjobs[0])
+    V.coverage["f9_witness_runs"] = len(wres)
+    V.coverage["f9_witness_hangs"] = sum(1 for r in wres.values() if r.get("hang"))
 
 
 # ------------------------------------------------------------------------------------------------
